@@ -388,6 +388,19 @@ def typing_rules(ck, c):
         ck.ob("WHO", f.path, "stacks-read-only-through-primitives", not direct,
               "no arm of validate() reads state.opds directly (labels are looked up through the control stack's own methods)" if not direct else
               "an instruction rule reads the operand/control stack directly (%d places): the frame's base height is bypassed" % len(direct), f.loc(direct[0]) if direct else f.loc())
+    # a function body is ONE expression: it ends at the `end` that closes the function's frame, and the code entry must be
+    # exhausted there. The instruction loop of validate() therefore refuses to process an instruction once the control stack is
+    # empty (a test of done() / of the control stack inside the loop, on the path to the dispatch). A test only after the loop
+    # accepts `end nop`, `end i32.const 0`, `end block end`: instructions that do not pop leave the empty stack empty
+    vf0 = getfn(ck, "sc", W, W + "::validate::validate")
+    if vf0:
+        lps = natural_loops(vf0)
+        nxt = [bi for (bi, t) in vf0.calls(r"Iterator::next$") if "ParseResult" in (t["f"].get("self") or "")]
+        oploop = [lp for lp in lps if any(bi in lp for bi in nxt)]
+        inloop = [bi for (bi, t) in vf0.calls(r"ValidationState::done$|ValidationState::<.*>::done$|ControlStack::is_empty$") if any(bi in lp for lp in oploop)]
+        ck.ob("DOM", vf0.path, "no-instruction-after-the-closing-end", bool(oploop) and bool(inloop),
+              "the instruction loop tests for an exhausted control stack before processing an instruction" if inloop else
+              "the instruction loop never tests whether the control stack is already exhausted (done() is called only after the loop): a body that continues after its closing `end` with instructions that do not pop is accepted", vf0.loc(nxt[0]) if nxt else vf0.loc())
     # sections that are walked in step (function types with function bodies, ...) are zipped only after their lengths were
     # compared: zip stops at the shorter one, so a missing body - or a surplus one - would simply not be looked at
     nzv = zip_length_sweep(ck, c, re.compile(r"concordium_wasm::validate::"), re.compile(r"validate_module$|::validate$"))
